@@ -62,10 +62,13 @@ func newState(init string) *state {
 
 func globalsSource(init string) string {
 	if init == "rich" {
-		return "let cnt = 41;\nlet items: [int] = [3, -1, 20];\nlet name = \"zoë\";\nlet ratio = -0.25;\nlet flag = true;\nlet last: ?int = ?7;\nlet cfg = new { a: -9, b: \"\" };\n"
+		return "let cnt = 41;\nlet items: [int] = [3, -1, 20];\nlet name = \"zoë\";\nlet ratio = -0.25;\nlet flag = true;\nlet last: ?int = ?7;\nlet cfg = new { a: -9, b: \"\" };\n" + constGlobals
 	}
-	return "let cnt = 0;\nlet items: [int] = [];\nlet name = \"init\";\nlet ratio = 1.5;\nlet flag = false;\nlet last: ?int = none;\nlet cfg = new { a: 1, b: \"x\" };\n"
+	return "let cnt = 0;\nlet items: [int] = [];\nlet name = \"init\";\nlet ratio = 1.5;\nlet flag = false;\nlet last: ?int = none;\nlet cfg = new { a: 1, b: \"x\" };\n" + constGlobals
 }
+
+// constGlobals are stored data no function writes (iterated in place by book_first_ge, grid_count_until).
+const constGlobals = "let book = new { rows: [5, 1, 9, 4], tag: \"b\" };\nlet grid: [[int]] = [[1, 5], [7, 2, 8], [4]];\n"
 
 // failure is the expected failure of a call.
 type failure struct {
@@ -906,6 +909,94 @@ fn fanout_fail() {
 		},
 		GenFail: gen()})
 
+	// ---- loops over places of stored data, left early (the iterator must not live in the stored value) ----
+	add(&fnSpec{Name: "book_first_ge", Params: []param{p("x", tInt)}, Ret: tInt,
+		Src: `fn book_first_ge(x: int) -> int {
+    for v in book.rows {
+        if v >= x {
+            return v;
+        }
+    }
+    -1
+}`,
+		Model: func(st *state, e env, a []valuni.Val) (valuni.Val, *failure) {
+			for _, v := range bookRows {
+				if v >= a[0].I {
+					return iv(v), nil
+				}
+			}
+			return iv(-1), nil
+		},
+		GenOK: func(r *fw.Rng, st *state, e env) []valuni.Val {
+			return []valuni.Val{iv(fw.Pick(r, []int64{0, 5, 6, 9, 10, -3}))}
+		}, Weight: 3})
+	add(&fnSpec{Name: "grid_count_until", Params: []param{p("row", tInt), p("stop", tInt)}, Ret: tInt,
+		Src: `fn grid_count_until(row: int, stop: int) -> int {
+    let n = 0;
+    for v in grid[row] {
+        if v == stop {
+            break;
+        }
+        n += 1;
+    }
+    n
+}`,
+		Model: func(st *state, e env, a []valuni.Val) (valuni.Val, *failure) {
+			var n int64
+			for _, v := range gridRows[a[0].I] {
+				if v == a[1].I {
+					break
+				}
+				n++
+			}
+			return iv(n), nil
+		},
+		GenOK: func(r *fw.Rng, st *state, e env) []valuni.Val {
+			return []valuni.Val{iv(fw.Pick(r, []int64{0, 1, 2})), iv(fw.Pick(r, []int64{1, 5, 7, 2, 8, 99}))}
+		}, Weight: 3})
+
+	// ---- exceptions raised and caught in the same activation with operands pending -----------------
+	add(&fnSpec{Name: "try_mid", Params: []param{p("x", tInt)}, Ret: tInt,
+		Src: `fn try_mid(x: int) -> int {
+    let r = try {
+        100 + {
+            if x == 0 {
+                throw("zero");
+            }
+            10 / x
+        }
+    } catch _e {
+        -1
+    };
+    r * 2
+}`,
+		Model: func(st *state, e env, a []valuni.Val) (valuni.Val, *failure) {
+			return iv(tryMid(a[0].I)), nil
+		},
+		GenOK: func(r *fw.Rng, st *state, e env) []valuni.Val {
+			return []valuni.Val{iv(fw.Pick(r, []int64{0, 0, 1, 3, -2, 11}))}
+		}, Weight: 3})
+	add(&fnSpec{Name: "sum_try_mid", Params: []param{p("n", tInt)}, Ret: tInt,
+		Src: `fn sum_try_mid(n: int) -> int {
+    let s = 7;
+    let i = 0;
+    while i < n {
+        s = s * 3 + try_mid(i % 3);
+        i += 1;
+    }
+    s
+}`,
+		Model: func(st *state, e env, a []valuni.Val) (valuni.Val, *failure) {
+			s := int64(7)
+			for i := int64(0); i < a[0].I; i++ {
+				s = s*3 + tryMid(i%3)
+			}
+			return iv(s), nil
+		},
+		GenOK: func(r *fw.Rng, st *state, e env) []valuni.Val {
+			return []valuni.Val{iv(fw.Pick(r, []int64{0, 1, 2, 4, 9, 30}))}
+		}, Weight: 2})
+
 	// ---- leaky variant (open finding of C11: exit out of an operand position) -------------------
 	add(&fnSpec{Name: "leaky", Only: "leaky", Params: []param{p("x", tInt)}, Ret: tInt, Tag: tagExprExit,
 		Src: `fn leaky(x: int) -> int {
@@ -926,11 +1017,57 @@ fn fanout_fail() {
 		GenOK: func(r *fw.Rng, st *state, e env) []valuni.Val {
 			return []valuni.Val{iv(fw.Pick(r, []int64{5, 1, maxI, 0, -3}))}
 		}, Weight: 6})
+	add(&fnSpec{Name: "leaky_loop", Only: "leaky", Params: []param{p("n", tInt)}, Ret: tInt, Tag: tagExprExit,
+		Src: `fn leaky_loop(n: int) -> int {
+    let s = 0;
+    let i = 0;
+    while i < n {
+        i += 1;
+        s = s + 100 * {
+            if i % 3 == 0 {
+                continue;
+            }
+            if i > 7 {
+                break;
+            }
+            i
+        };
+    }
+    s
+}`,
+		Model: func(st *state, e env, a []valuni.Val) (valuni.Val, *failure) {
+			var s int64
+			for i := int64(1); i <= a[0].I; i++ {
+				if i%3 == 0 {
+					continue
+				}
+				if i > 7 {
+					break
+				}
+				s += 100 * i
+			}
+			return iv(s), nil
+		},
+		GenOK: func(r *fw.Rng, st *state, e env) []valuni.Val {
+			return []valuni.Val{iv(fw.Pick(r, []int64{0, 2, 3, 7, 12, 400}))}
+		}, Weight: 4})
 	return out
 }
 
 // annotFn is the literal name the compiler gives to the argument function of tick's trigger annotation.
 const annotFn = "TRIGGER_args_for_tick"
+
+var (
+	bookRows = []int64{5, 1, 9, 4}
+	gridRows = [][]int64{{1, 5}, {7, 2, 8}, {4}}
+)
+
+func tryMid(x int64) int64 {
+	if x == 0 {
+		return -2
+	}
+	return (100 + goDiv(10, x)) * 2
+}
 
 func goDiv(a, b int64) int64 {
 	if b == -1 {
